@@ -231,10 +231,16 @@ func planC12(g *Gen, tier string) ([]SQLCase, map[string]int, bool) {
 					for k := 1; k <= ncalls; k++ {
 						w := base
 						w.Fault = k
+						// the failure is sometimes a context error coming from the driver (a statement timeout) although the
+						// caller's context is alive
+						w.FaultKind = []string{"", "", "deadline", "canceled", "wrapped"}[(k+n+bs)%5]
 						cases = append(cases, SQLCase{Kind: "w", Tag: "fault", W: &w})
 						stats["fault"]++
 						c := base
 						c.Cancel = k
+						// the cancellation arrives while the last statements run: database/sql has already marked the
+						// transaction as done when the library reaches Commit
+						c.Settle = k >= ncalls-2 && (n+bs+present)%2 == 0
 						cases = append(cases, SQLCase{Kind: "w", Tag: "cancel", W: &c})
 						stats["cancel"]++
 					}
@@ -325,7 +331,10 @@ func planC13(g *Gen, tier string) ([]SQLCase, map[string]int, bool) {
 		cols := []Col{}
 		for len(cols) < nc {
 			nm := hostile[g.r.Intn(len(hostile))]
-			if used[nm] || nm == "" {
+			if g.chance(0.08) {
+				nm = []string{"", "unnamed", "column", "col0"}[g.r.Intn(4)] // a blank header gives a column named ""
+			}
+			if used[nm] {
 				continue
 			}
 			used[nm] = true
@@ -377,6 +386,9 @@ func (g *Gen) valueFor(kind string, dateCol bool) Cell {
 		if dateCol {
 			return StrCell([]string{"2021-03-04", "2021-03-04 05:06:07", "2021-03-04T05:06:07Z", "2021-03-04T05:06:07.123+02:00", "2021-03-04 05:06:07.123456",
 				"Thu, 04 Mar 2021 05:06:07 UTC", "04 Mar 21 05:06 UTC", "not a date", "", "2021-13-40"}[g.r.Intn(10)])
+		}
+		if g.chance(0.2) {
+			return StrCell([]string{"tail  ", " ", "tab\t ", "  lead", " both ", "x\n", "", "pad   "}[g.r.Intn(8)])
 		}
 		return StrCell(plainStrs[g.r.Intn(len(plainStrs))])
 	}
